@@ -5,7 +5,7 @@ import vlib
 from vlib import Broken, tlc, tlc_must_pass
 
 SPECDIR = os.path.join(vlib.SPECS, "ctrl")
-C12_EVENTS = ("fpid", "npid")
+C12_EVENTS = ("fpid", "npid", "fpidk")
 
 
 def run_fuzzy(ck, sc, tier):
